@@ -2,7 +2,7 @@ SPEC = dict(
     props_file="Props/C15.v",
     level="proof",
     observers=[dict(cmd="obs_acc", imports=["Model.AccBase", "Model.Accessors"], case_type="Accessors.case", check="Accessors.check_case",
-                    n={"quick": 1500, "thorough": 80000}, shard=100)],
+                    n={"quick": 1000, "thorough": 80000}, shard=100)],
     rule="reply trees: well-shaped replies of every helper in the RESP2 and RESP3 shapes (scalars, slices, string/int maps, ZSCORE(S), "
          "XRANGE, XREAD, SCAN, LMPOP, ZMPOP, FT.SEARCH with/without scores and attributes, FT.AGGREGATE with/without cursor, GEOSEARCH "
          "with every WITH* combination, generic maps), the same mutated (child dropped / duplicated, node retagged, aggregate emptied, "
